@@ -18,7 +18,7 @@ import (
 // can reach C·tolerance.
 const tessModelC = 1 / 0.83829992569888509
 
-var famNames = []string{"random", "equator-symmetric", "same-latitude", "antimeridian", "near-pole", "short", "meridian-or-equator", "special-angles"}
+var famNames = []string{"random", "equator-symmetric", "same-latitude", "antimeridian", "near-pole", "short", "meridian-or-equator", "special-angles", "through-pole"}
 
 var scales = []float64{math.Pi, 180, 1, 1 << 20}
 
@@ -76,6 +76,16 @@ func genEdgeLL(t *rapid.T, fam int, maxLat float64) (lat1, lng1, lat2, lng2 floa
 			lng1 = fl(-180, 180, "lng1")
 			lng2 = lng1 + fl(-175, 175, "dlng")
 		}
+	case 8: // the geodesic passes through (or within 1e-15..1e-3 deg of) a pole: longitudes 180 deg apart
+		lat1, lat2 = fl(-maxLat, maxLat, "lat1"), fl(-maxLat, maxLat, "lat2")
+		if rapid.Bool().Draw(t, "round") {
+			lat1, lat2 = math.Round(lat1/5)*5, math.Round(lat2/5)*5
+		}
+		lng1 = fl(-180, 0, "lng1")
+		if rapid.Bool().Draw(t, "roundlng") {
+			lng1 = math.Round(lng1/15) * 15
+		}
+		lng2 = lng1 + 180 + rapid.SampledFrom([]float64{0, 0, 1e-15, -1e-15, 1e-12, -1e-12, 1e-9, -1e-9, 1e-6, -1e-6, 1e-3, -1e-3}).Draw(t, "off")
 	case 7: // multiples of 15 degrees
 		lat1 = 15 * float64(rapid.IntRange(-6, 6).Draw(t, "ilat1"))
 		lat2 = 15 * float64(rapid.IntRange(-6, 6).Draw(t, "ilat2"))
@@ -110,20 +120,45 @@ func pullIn(ps projSpec, a, b s2.Point) s2.Point {
 	return a
 }
 
-func drawTol(t *rapid.T, l float64) float64 {
-	// l: characteristic edge length in radians. The floor l²·1e-6 keeps the
-	// output chain below a few thousand vertices.
+// drawTol draws the tolerance. l is the characteristic edge length (radians)
+// and e0 the error of the un-subdivided edge measured by the oracle (0 if
+// unknown): most tolerances are tied to e0 so that the subdivision depth and
+// the final error/tolerance ratio vary; the floor l²·1e-6 keeps the output
+// chain below a few thousand vertices.
+func drawTol(t *rapid.T, l, e0 float64) float64 {
 	floor := math.Max(1e-13, l*l*1e-6)
 	var tol float64
-	switch rapid.IntRange(0, 4).Draw(t, "tolmode") {
+	switch rapid.IntRange(0, 7).Draw(t, "tolmode") {
 	case 0:
 		tol = math.Pow(10, rapid.Float64Range(math.Log10(floor), 0).Draw(t, "logtol"))
 	case 1:
 		tol = rapid.SampledFrom([]float64{1e-13, 1e-12, 1.567e-7 /* 1 m */, 1e-3, 0.1, 1}).Draw(t, "toltab")
-	default:
+	case 2:
 		tol = l * l * math.Pow(10, rapid.Float64Range(-6, 0.3).Draw(t, "relogtol"))
+	default:
+		if e0 <= 0 {
+			e0 = l * l
+		}
+		tol = e0 * math.Pow(10, rapid.Float64Range(-4, 0.3).Draw(t, "e0logtol"))
 	}
 	return math.Min(1, math.Max(floor, tol))
+}
+
+// baseErr: largest distance between the straight planar edge (p0 -> p0+d) mapped
+// to the sphere and the geodesic between the images of its end points.
+func baseErr(ps projSpec, p0 [2]float64, dx, dy float64) float64 {
+	a, b := ps.unproj(p0[0], p0[1]), ps.unproj(p0[0]+dx, p0[1]+dy)
+	if angle(a, b) > deg(179) {
+		return 0
+	}
+	m := 0.0
+	for i := 1; i < 16; i++ {
+		t := float64(i) / 16
+		if d := distPointEdge(ps.unproj(p0[0]+t*dx, p0[1]+t*dy), a, b); d > m {
+			m = d
+		}
+	}
+	return m
 }
 
 // ---------------------------------------------------------------- projected
@@ -158,14 +193,20 @@ func genProjected(t *rapid.T) projCase {
 		}
 		vs = append(vs, pullIn(ps, vs[len(vs)-1], c))
 	}
-	l := 0.0
+	l, e0 := 0.0, 0.0
 	for i := 0; i+1 < len(vs); i++ {
 		l = math.Max(l, angle(vs[i], vs[i+1]))
+		x0, y0 := ps.proj(vs[i])
+		x1, y1 := ps.proj(vs[i+1])
+		if finite(x0, y0, x1, y1) {
+			e0 = math.Max(e0, baseErr(ps, [2]float64{x0, y0}, ps.wrapDelta(x0, x1), y1-y0))
+		}
 	}
-	return projCase{Kind: ps.Kind, Scale: ps.Scale, Tol: drawTol(t, l), Fam: fam, V: gen.FromPts(vs)}
+	return projCase{Kind: ps.Kind, Scale: ps.Scale, Tol: drawTol(t, l, e0), Fam: fam, V: gen.FromPts(vs)}
 }
 
 const findingTinyEdge = "tess-tiny-edge-unbounded-recursion"
+const findingThroughPole = "tess-projected-geodesic-through-pole"
 
 // interpolateNaN reports the condition under which estimateMaxError returns NaN
 // for a non-degenerate edge: the library's own interpolation of (a,b) at the
@@ -245,11 +286,6 @@ func checkProjected(c projCase) ev.Outcome {
 			o.Finding = "tess-nonfinite"
 			return o
 		}
-		if i > 0 && math.Abs(p.X-chain[i-1].X) > ps.Scale*(1+1e-12) {
-			o.Err = fmt.Sprintf("consecutive output vertices %d,%d are %.17g apart in x, more than half the wrap distance %.17g", i-1, i, math.Abs(p.X-chain[i-1].X), ps.Scale)
-			o.Finding = "tess-wrap"
-			return o
-		}
 	}
 	o.Counts = map[string]int{"output_vertices": len(chain)}
 	nEdges := len(chain) - 1
@@ -264,6 +300,21 @@ func checkProjected(c projCase) ev.Outcome {
 	start := 0
 	for e, end := range ends {
 		a, b := vs[e], vs[e+1]
+		// an edge whose geodesic passes through a pole (within 1e-6 rad): its own finding class
+		throughPole := geodesicMaxAbsLat(a, b) > math.Pi/2-1e-6
+		cls := func(f string) string {
+			if throughPole {
+				return findingThroughPole
+			}
+			return f
+		}
+		for i := start + 1; i <= end; i++ {
+			if dxw := math.Abs(chain[i].X - chain[i-1].X); dxw > ps.Scale*(1+1e-12) {
+				o.Err = fmt.Sprintf("%s scale %g tol %.6g edge %d: consecutive output vertices %d,%d (%v -> %v) are %.17g apart in x, more than half the wrap distance %.17g (documented: every vertex as close as possible to the previous one)", ps.name(), ps.Scale, c.Tol, e, i-1, i, chain[i-1], chain[i], dxw, ps.Scale)
+				o.Finding = cls("tess-wrap")
+				return o
+			}
+		}
 		// endpoints: the chain starts at the image of a and ends at the image of b (any wrap)
 		if d := angle(ps.unproj(chain[start].X, chain[start].Y), a); d > absSlack {
 			o.Err = fmt.Sprintf("edge %d: first output vertex %v unprojects %.3g rad away from a", e, chain[start], d)
@@ -314,7 +365,7 @@ func checkProjected(c projCase) ev.Outcome {
 				p, q := chain[j], chain[j+1]
 				x := ps.unproj(p.X+(q.X-p.X)*s, p.Y+(q.Y-p.Y)*s)
 				if distPointEdge(x, a, b) > c.Tol+absSlack && hpExceeds(x, a, b, c.Tol+absSlack) {
-					o.Finding = classifyTess(d, c.Tol)
+					o.Finding = cls(classifyTess(d, c.Tol))
 					o.Err = fmt.Sprintf("%s scale %g tol %.6g: point at fraction %.4f of output edge %d (%v -> %v) is %.6g rad from the geodesic edge %d = %.5f x tolerance (chain of %d vertices)",
 						ps.name(), ps.Scale, c.Tol, s, j, p, q, d, e, d/c.Tol, len(chain))
 					o.Ratios = map[string]float64{"chain_to_geodesic_err/tol": (d - absSlack) / c.Tol}
@@ -362,6 +413,7 @@ func checkProjected(c projCase) ev.Outcome {
 						if d <= tessModelC*c.Tol*(1+curveFudge)+absSlack {
 							o.Finding = "tess-scale-factor-unapplied"
 						}
+						o.Finding = cls(o.Finding)
 						o.Err = fmt.Sprintf("%s scale %g tol %.6g: geodesic point %v of edge %d is %.6g rad from the image of the output chain = %.5f x tolerance", ps.name(), ps.Scale, c.Tol, g, e, d, d/c.Tol)
 						return o
 					}
@@ -369,6 +421,11 @@ func checkProjected(c projCase) ev.Outcome {
 			}
 		}
 		start = end
+	}
+	if len(chain) < 3 {
+		o.Counts["chains_without_subdivision"] = 1
+	} else if worst <= 0.5*c.Tol {
+		o.Counts["subdivided_but_error_below_half_tol"] = 1
 	}
 	o.NonTrivial = len(chain) >= 3 && worst > 0.5*c.Tol
 	o.Ratios = map[string]float64{"chain_to_geodesic_err/tol": worst / c.Tol, "geodesic_to_chain_err/tol": worstBack / c.Tol}
